@@ -80,6 +80,7 @@ LitsCast == << StrV(<< "1", "2" >>), StrV(<< "-", "3" >>), StrV(<< "1", ".", "5"
 LitsFmt == << IntV(1), StrV(<< "a" >>), BoolV(TRUE), FloatV(3, 1), Null >>
 OpsFew == {"add", "eq", "and", "lt"}
 OpsFew2 == {"add", "sub", "eq", "or"}
+Sigs2 == << << Fld(n_x, IntV(2)) >>, << Fld(n_a, IntV(5)) >> >>
 SigsCall == << << Fld(n_x, IntV(2)) >>, << Fld(n_x, IntV(2)), Fld(n_y, IntV(3)) >>, << Fld(n_a, IntV(5)) >>, << >> >>
 SigsMap == << << Fld(n_x, IntV(2)) >>, << Fld(n_k, StrV(<< "a" >>)), Fld(n_v, IntV(1)) >>,
               << Fld(n_acc, IntV(0)), Fld(n_x, IntV(1)) >>, << Fld(n_x, StrV(<< "a" >>)) >>,
@@ -130,6 +131,9 @@ FamFuncDef == {"lit", "var", "bin", "func", "select", "let"}
 FamModDef == {"lit", "var", "bin", "module", "dot", "letuse"}
 FamFuncUse == {"lit", "var", "bin", "func", "select", "list", "letuse", "exprstmt"}
 FamCast == {"lit", "var", "bin", "cast", "let"}
+FamScopeMod == {"lit", "var", "bin", "module", "dot", "letuse", "outerref"}
+FamScopeFn == {"lit", "var", "bin", "func", "fmt1", "letuse", "leakref", "fwdref", "let", "call"}
+FamRebind == {"lit", "var", "bin", "let", "badlet", "reserved", "tuple"}
 FamBind == {"lit", "var", "bin", "func", "call", "fmt1", "module", "copy", "let", "badlet", "reserved", "tuple"}
 FamSim == {"lit", "var", "bin", "not", "let", "exprstmt", "list", "tuple", "dot", "copy", "self", "in", "is",
            "select", "func", "call", "badcall", "module", "fop", "fmt", "fmtbad", "fmt1", "range", "cast", "fail",
